@@ -14,7 +14,7 @@ func init() { register("C17", rulesC17) }
 
 func rulesC17(e *Engine, r *Report) {
 	// ---------------------------------------------------------------- R17.1
-	r.Rule("R17.1", "scan filter: a node is appended to the scan result only if it is not a directory, shouldIgnore(rel, false) is false, its age measured from the scan's start time is at least MinAge, and the caller's filter accepted it (when one is installed); an ignored directory is skipped as a whole (SkipDir); Scan returns nothing under the disable marker and installs the caller's filter and the scan start time before walking")
+	r.Rule("R17.1", "scan filter: a node is appended to the scan result only if it is not a directory, shouldIgnore(rel, false) is false, its age - the age of the record that is appended, i.e. of the link's target for a link - measured from the scan's start time is at least MinAge, and the caller's filter accepted it (when one is installed); an ignored directory is skipped as a whole (SkipDir); Scan returns nothing under the disable marker and installs the caller's filter and the scan start time before walking")
 	if fn := needFn(e, r, "R17.1", "store.(*Local).handleNode"); fn != nil {
 		rel := "call(store.(*Local).getRelPath)(p0, p1)"
 		file := "call(store.newLocalFile)(p1, " + rel + ", p2)"
@@ -23,7 +23,10 @@ func rulesC17(e *Engine, r *Report) {
 			C("invoke(os.FileInfo.IsDir)(p2)", "isDir"),
 			C("!call(store.(*Local).shouldIgnore)(p0, "+rel+", false)", "notIgnored"),
 			C("call(store.(*Local).shouldIgnore)(p0, "+rel+", true)", "dirIgnored"),
-			C("(p0.MinAge <= call(time.(Time).Sub)(p0.scanTimeStart, invoke(os.FileInfo.ModTime)(p2)))", "oldEnough"),
+			// the age is that of what is appended (for a link: the target's time, which is what
+			// newLocalFile puts into the record), not that of the directory entry the walk met (F49)
+			C("(p0.MinAge <= call(time.(Time).Sub)(p0.scanTimeStart, call(store.(*localFile).GetTime)("+file+"#0)))", "oldEnough"),
+			C("(p0.MinAge <= call(time.(Time).Sub)(p0.scanTimeStart, invoke(os.FileInfo.ModTime)("+file+"#0.info)))", "oldEnough"),
 			C("dyn(p0.shouldAllow)("+file+"#0)", "allowed"),
 			C("(p0.shouldAllow == nil)", "noFilter"),
 			C("("+file+"#1 == nil)", "fileOK"),
